@@ -80,4 +80,64 @@ mod harnesses {
         let dec = clvm_traits::decode_number::<8>(&enc, true);
         assert!(dec == Some(v.to_be_bytes()));
     }
+
+    /// the integer an atom denotes (two's complement, big endian), for atoms of at most 10 bytes
+    fn atom_value(b: &[u8; 10], len: usize) -> i128 {
+        if len == 0 { return 0; }
+        let mut v: i128 = if b[0] & 0x80 != 0 { -1 } else { 0 };
+        let mut i = 0;
+        while i < len {
+            v = (v << 8) | (b[i] as i128);
+            i += 1;
+        }
+        v
+    }
+
+    /// COMPLETE over every atom of at most 10 bytes (longer atoms only add padding bytes, which the loop strips one by one):
+    /// the signed 64-bit decoder returns exactly the value the atom denotes, and refuses exactly the atoms whose value does
+    /// not fit i64
+    #[kani::proof]
+    #[kani::unwind(12)]
+    fn decode_number_i64_is_faithful() {
+        let b: [u8; 10] = kani::any();
+        let len: usize = kani::any();
+        kani::assume(len <= 10);
+        let val = atom_value(&b, len);
+        match clvm_traits::decode_number::<8>(&b[..len], true) {
+            Some(arr) => assert!(i64::from_be_bytes(arr) as i128 == val),
+            None => assert!(val < i64::MIN as i128 || val > i64::MAX as i128),
+        }
+    }
+
+    /// COMPLETE over every atom of at most 10 bytes: the unsigned 64-bit decoder returns exactly the value the atom denotes
+    /// and refuses exactly the negative atoms and those above u64::MAX
+    #[kani::proof]
+    #[kani::unwind(12)]
+    fn decode_number_u64_is_faithful() {
+        let b: [u8; 10] = kani::any();
+        let len: usize = kani::any();
+        kani::assume(len <= 10);
+        let val = atom_value(&b, len);
+        match clvm_traits::decode_number::<8>(&b[..len], false) {
+            Some(arr) => assert!(u64::from_be_bytes(arr) as i128 == val),
+            None => assert!(val < 0 || val > u64::MAX as i128),
+        }
+    }
+
+    /// COMPLETE over every atom of at most 6 bytes: the signed 32-bit decoder (a width below the 64-bit one)
+    #[kani::proof]
+    #[kani::unwind(12)]
+    fn decode_number_i32_is_faithful() {
+        let b6: [u8; 6] = kani::any();
+        let len: usize = kani::any();
+        kani::assume(len <= 6);
+        let mut b = [0u8; 10];
+        let mut i = 0;
+        while i < 6 { b[i] = b6[i]; i += 1; }
+        let val = atom_value(&b, len);
+        match clvm_traits::decode_number::<4>(&b[..len], true) {
+            Some(arr) => assert!(i32::from_be_bytes(arr) as i128 == val),
+            None => assert!(val < i32::MIN as i128 || val > i32::MAX as i128),
+        }
+    }
 }
